@@ -1,5 +1,6 @@
-(* Extraction for C05: sessions over the reference evaluator. ExtrOcamlBasic only. *)
+(* Extraction for C05: sessions over the reference evaluator; the phase model. ExtrOcamlBasic only. *)
 From Coq Require Import ZArith ExtrOcamlBasic.
-Require Import ZV.Model.RefSem ZV.Model.ErrCont.
+Require Import ZV.Model.RefSem ZV.Model.ErrCont ZV.Model.Phases.
 Extraction "model.ml" Z.add Z.mul Z.opp Z.div_eucl Z.of_nat Z.to_nat Z.compare
-  run_session eval_session eval_text prim_ident all_prims cc.
+  run_session eval_session eval_text prim_ident all_prims cc
+  psession_obs i_init read_spec force.
